@@ -43,6 +43,7 @@ class SatSystem(System):
         for w, d in ((1, 1), (2, 2), (3, 2)):
             cfgs.append(dict(kind="cms", width=w, depth_=d, depth=depth, cost=30000))
         cfgs.append(dict(kind="cms", width=2, depth_=2, depth=depth, qt="mean", cost=30000))
+        cfgs.append(dict(kind="cms", width=2, depth_=2, depth=depth, sub="st", cost=30000))
         if seed:
             r = seed % len(cfgs)
             cfgs = cfgs[r:] + cfgs[:r]
@@ -54,12 +55,19 @@ class SatSystem(System):
             keys = [items[2][0], items[1][0], items[0][0]]  # c (coinciding), b (shares with a), a
             return keys, K.table_strategy(items)
         items = cms_table(cfg["width"], cfg["depth_"])
-        return [k for k, _ in items][:3], K.table_strategy(items)
+        keys = [k for k, _ in items]
+        if cfg.get("sub") == "st":
+            keys = [k for k in keys if isinstance(k, str)]
+        return keys[:3], K.table_strategy(items)
 
     def _new(self, cfg):
         keys, hf = self._alpha(cfg)
         if cfg["kind"] == "cbf":
             return CountingBloomFilter(cfg["n"], cfg["p"], hash_function=hf)
+        if cfg.get("sub") == "st":
+            from probables import StreamThreshold
+
+            return StreamThreshold(threshold=5, width=cfg["width"], depth=cfg["depth_"], hash_function=hf)
         s = CountMinSketch(width=cfg["width"], depth=cfg["depth_"], hash_function=hf)
         if cfg.get("qt"):
             s.query_type = cfg["qt"]
@@ -206,7 +214,8 @@ class SatSystem(System):
             bad("sat.state_exportable", {"obs": b})
         else:
             cls = type(f)
-            g = call(lambda: cls.frombytes(b[1], hash_function=hf))
+            kw = {"threshold": 5} if cfg.get("sub") == "st" else {}
+            g = call(lambda: cls.frombytes(b[1], hash_function=hf, **kw))
             if g[0] != "ok" or call(bytes, g[1]) != b or g[1].elements_added != f.elements_added:
                 bad("sat.state_reloadable", {"obs": repr(g)[:200]})
             if cfg["kind"] == "cbf":
@@ -249,6 +258,8 @@ class SatSystem(System):
                     z > U32 for z in bloomlib.cells_of(it[1])
                 ):
                     bad("sat.intersection_clamps", {"expected": want_i, "obs": bloomlib.cells_of(it[1])}, g2)
+            elif cfg.get("sub") == "st":
+                pass  # join is not supported by StreamThreshold
             else:
                 recv = self.clone(post).impl
                 r = call(recv.join, o)
